@@ -131,10 +131,10 @@ _SEL_PRE = ["0 <= v0 < 5", "0 <= v1 < 5", "0 <= v2 < 5"]
     pre=_SEL_PRE,
     timeout=240,
     timeout_thorough=1200,
-    shard={"n": [1, 2, 3], "t": [3, 4]},
+    shard={"n": [1, 2, 3], "t": [1, 2, 3, 4]},
     covers="where/reject partition the input in order; find = first(where); find_index and has agree with find; string-key form == lambda form (with a value)",
-    bounds="up to 3 hashes, key possibly missing (presence bits), values in {nil,false,true,0,1}, target in {0,1}",
-    grid=lambda: [(True, 3, False, 0, True, 4, 3, 3), (True, 0, True, 1, True, 2, 3, 4), (False, 0, False, 0, False, 0, 2, 4), (True, 4, True, 4, True, 4, 3, 4)],
+    bounds="up to 3 hashes, key possibly missing (presence bits), values in {nil,false,true,0,1}, target in {false,true,0,1} (Liquid equality: a boolean equals only the same boolean)",
+    grid=lambda: [(True, 3, False, 0, True, 4, 3, 3), (True, 0, True, 1, True, 2, 3, 4), (False, 0, False, 0, False, 0, 2, 4), (True, 4, True, 4, True, 4, 3, 4), (True, 1, True, 2, True, 0, 3, 1), (True, 1, True, 2, False, 0, 3, 2), (True, 3, True, 1, True, 4, 3, 1)],
 )
 def k_where_value(p0: bool, v0: int, p1: bool, v1: int, p2: bool, v2: int, n: int, t: int) -> bool:
     x = _items(bool(p0), concrete_int(v0, 0, 4), bool(p1), concrete_int(v1, 0, 4), bool(p2), concrete_int(v2, 0, 4), n)
@@ -142,11 +142,17 @@ def k_where_value(p0: bool, v0: int, p1: bool, v1: int, p2: bool, v2: int, n: in
     return untraced(lambda: _k_where_value(x, t))
 
 
+def _liquid_eq(a: object, b: object) -> bool:
+    if isinstance(a, bool) or isinstance(b, bool):
+        return a is b
+    return a == b
+
+
 def _k_where_value(x: list, t: int) -> bool:
     tv = VALS[t]
     w = ev("x | where: 'k', t", x=x, t=tv)
     rj = ev("x | reject: 'k', t", x=x, t=tv)
-    want = [i for i in x if "k" in i and i["k"] is not True and i["k"] is not False and i["k"] == tv]
+    want = [i for i in x if "k" in i and i["k"] is not None and _liquid_eq(i["k"], tv)]
     if [i["id"] for i in w] != [i["id"] for i in want]:
         return False
     if not (is_subseq(w, x) and is_subseq(rj, x) and len(w) + len(rj) == len(x)):
